@@ -42,7 +42,7 @@ for sid in ids:
     res = dict(id=sid)
     try:
         harmless = sid.startswith("H")
-        feat = " --features embedded-io,embedded-io-async" if sid == "C16" else ""
+        feat = " --features embedded-io,embedded-io-async" if sid.startswith("C16") else ""
         if not harmless and os.path.exists(os.path.join(dst, "demo.rs")):
             shutil.copy(os.path.join(dst, "demo.rs"), os.path.join(wt, "tests", "demo.rs"))
             rc, out = sh(f"cargo test --offline --test demo{feat}", wt)
@@ -58,7 +58,7 @@ for sid in ids:
             os.remove(os.path.join(wt, "tests", "demo.rs"))
         rc, out = sh("cargo test --offline --workspace --no-fail-fast", wt)
         res["suite_with_change"] = "pass" if rc == 0 else "FAIL"
-        props = props_arg or ([sid] if not harmless else ["C01", "C02", "C03", "C04", "C05", "C07", "C08", "C09", "C11", "C20"])
+        props = props_arg or ([sid[:3]] if not harmless else ["C01", "C02", "C03", "C04", "C05", "C07", "C08", "C09", "C11", "C20"])
         res["checks"] = {}
         for p in props:
             t0 = time.time()
